@@ -685,3 +685,29 @@ func mayBeNil(v ssa.Value, seen map[ssa.Value]bool) bool {
 	}
 	return false
 }
+
+// stepAssume takes successor i of block b (entered from prev) under the branch outcomes assumed so far; it returns the
+// extended assumptions, or ok=false when the edge contradicts an earlier branch on the same condition (same boolean
+// parameter, or the same ==/!= comparison over identical SSA operands) or is ruled out by a constant.
+func stepAssume(assume map[string]bool, b, prev *ssa.BasicBlock, i int) (map[string]bool, bool) {
+	cond, pol, feasible := branchCond(b, prev, i)
+	if !feasible {
+		return assume, false
+	}
+	if cond == nil {
+		return assume, true
+	}
+	k, kpol := condKey(cond, pol)
+	if k == "" {
+		return assume, true
+	}
+	if v, ok := assume[k]; ok {
+		return assume, v == kpol
+	}
+	as := make(map[string]bool, len(assume)+1)
+	for kk, vv := range assume {
+		as[kk] = vv
+	}
+	as[k] = kpol
+	return as, true
+}
